@@ -105,6 +105,15 @@ type caseCfg struct {
 	CutMode    int           // werr-early: 0 = no byte, 1 = 5 bytes, 2 = all but the last byte of the head
 	Chunked    bool          // stream without size / oversized body chunked
 	StallExtra time.Duration // deadline family: stall ends at firstAttemptStart + Timeout + StallExtra
+	SetTimeout bool          // the timeout is set once with req.SetTimeout and the request is sent with plain Do
+}
+
+// reused is one *Request (and Response) that several consecutive calls of a case share. It is
+// prepared once - URI, method, id, body, req.SetTimeout - and then handed to Do again untouched.
+type reused struct {
+	req      *fasthttp.Request
+	resp     *fasthttp.Response
+	prepared bool
 }
 
 func (c caseCfg) describe() map[string]any {
@@ -114,7 +123,7 @@ func (c caseCfg) describe() map[string]any {
 	}
 	return map[string]any{"faults": s, "method": c.Method, "MaxIdemponentCallAttempts": c.MaxAtt, "callback": cbNames[c.CB],
 		"body": bodyNames[c.Body], "via_client": c.ViaClient, "warm_pooled_conn": c.Warm, "timeout_ms": c.Timeout.Milliseconds(),
-		"deadline_api": c.DeadlineFn, "cut_mode": c.CutMode, "chunked": c.Chunked}
+		"deadline_api": c.DeadlineFn, "cut_mode": c.CutMode, "chunked": c.Chunked, "timeout_via_SetTimeout_and_plain_Do": c.SetTimeout}
 }
 
 type attempt struct {
@@ -543,7 +552,10 @@ type onceReader struct {
 
 func (o *onceReader) Read(p []byte) (int, error) { return o.r.Read(p) }
 
-func runCase(cfg caseCfg) (o obs) {
+func runCase(cfg caseCfg) obs { return runCaseOn(cfg, nil) }
+
+// runCaseOn runs one call; with sh != nil on the shared, possibly already used, request.
+func runCaseOn(cfg caseCfg, sh *reused) (o obs) {
 	n := &caseNet{cfg: cfg, tx: map[string]int{}}
 	rc := n.retryFuncs(cfg)
 	var d doer
@@ -560,10 +572,18 @@ func runCase(cfg caseCfg) (o obs) {
 			ReadBufferSize: 1024, WriteBufferSize: 1024}
 		d, closeIdle = hc, hc.CloseIdleConnections
 	}
-	req := fasthttp.AcquireRequest()
-	resp := fasthttp.AcquireResponse()
-	defer fasthttp.ReleaseRequest(req)
-	defer fasthttp.ReleaseResponse(resp)
+	var req *fasthttp.Request
+	var resp *fasthttp.Response
+	prepare := true
+	if sh != nil {
+		req, resp, prepare = sh.req, sh.resp, !sh.prepared
+		sh.prepared = true
+	} else {
+		req = fasthttp.AcquireRequest()
+		resp = fasthttp.AcquireResponse()
+		defer fasthttp.ReleaseRequest(req)
+		defer fasthttp.ReleaseResponse(resp)
+	}
 
 	finished := make(chan struct{})
 	go func() {
@@ -598,21 +618,28 @@ func runCase(cfg caseCfg) (o obs) {
 			req.Reset()
 			resp.Reset()
 		}
-		req.SetRequestURI("http://c19.test/x")
-		req.Header.SetMethod(cfg.Method)
-		req.Header.Set("X-Req-Id", caseReqID)
-		switch cfg.Body {
-		case bodyBytes:
-			req.SetBodyString("payload-0123456789")
-		case bodyStream:
-			if cfg.Chunked {
-				req.SetBodyStream(&onceReader{strings.NewReader("streamed-payload")}, -1)
-			} else {
-				req.SetBodyStream(strings.NewReader("streamed-payload"), 16)
+		if prepare {
+			req.SetRequestURI("http://c19.test/x")
+			req.Header.SetMethod(cfg.Method)
+			req.Header.Set("X-Req-Id", caseReqID)
+			switch cfg.Body {
+			case bodyBytes:
+				req.SetBodyString("payload-0123456789")
+			case bodyStream:
+				if cfg.Chunked {
+					req.SetBodyStream(&onceReader{strings.NewReader("streamed-payload")}, -1)
+				} else {
+					req.SetBodyStream(strings.NewReader("streamed-payload"), 16)
+				}
+			}
+			if cfg.SetTimeout {
+				req.SetTimeout(cfg.Timeout)
 			}
 		}
 		var err error
 		switch {
+		case cfg.SetTimeout:
+			err = d.Do(req, resp) // the timeout lives in the request; DoTimeout/DoDeadline would re-assign it
 		case cfg.Timeout <= 0:
 			err = d.Do(req, resp)
 		case cfg.DeadlineFn:
@@ -847,6 +874,50 @@ func deadlineCases(thorough bool) []caseCfg {
 	return out
 }
 
+// reuseCases (family C): 2-3 consecutive plain Do calls on ONE request whose timeout was set once with
+// req.SetTimeout. The first call leaves Do through one of its exits (above all "deadline passed before the
+// next attempt could start": retriable fault, retry allowed, stall until after the deadline); the later calls
+// are stalled past their own deadline and must not start another attempt either.
+func reuseCases(thorough bool) [][]caseCfg {
+	type mc struct {
+		m  string
+		cb int
+	}
+	mcs := []mc{{"GET", cbNone}, {"PUT", cbNone}, {"POST", cbRetryIfTrue}, {"GET", cbErrRetry}, {"DELETE", cbUpRetry}, {"GET", cbMixed}}
+	stalls := []kind{kStallRead, kStallWrite, kStallServer}
+	firsts := [][]kind{{kOK}, {kBig}, {kDialErr}, {kEOF, kEOF, kEOF, kEOF, kEOF, kEOF, kEOF}} // controls: success, non-retriable, attempt limit
+	for _, pre := range [][]kind{{}, {kEOF}, {kWriteLate}} {
+		for _, st := range stalls {
+			firsts = append(firsts, append(append([]kind(nil), pre...), st, kEOF, kEOF))
+		}
+	}
+	timeouts := []time.Duration{40 * time.Millisecond}
+	if thorough {
+		timeouts = []time.Duration{20 * time.Millisecond, 40 * time.Millisecond, 90 * time.Millisecond}
+	}
+	var out [][]caseCfg
+	for _, to := range timeouts {
+		for _, x := range mcs {
+			for fi, f := range firsts {
+				for si, st := range stalls {
+					for api := 0; api < 2; api++ {
+						mk := func(seq []kind) caseCfg {
+							return caseCfg{Seq: seq, Method: x.m, CB: x.cb, MaxAtt: 6, Timeout: to, StallExtra: to/2 + 15*time.Millisecond,
+								SetTimeout: true, ViaClient: api == 1, Body: (fi + si) % 2}
+						}
+						calls := []caseCfg{mk(f), mk([]kind{st, kEOF, kEOF})}
+						if (fi+si)%3 == 0 {
+							calls = append(calls, mk([]kind{kEOF, stalls[(si+1)%3], kEOF, kEOF}))
+						}
+						out = append(out, calls)
+					}
+				}
+			}
+		}
+	}
+	return out
+}
+
 func classOf(c caseCfg) string {
 	return fmt.Sprintf("%v|%s|%d|%d|%d|%v|%v|%v", c.Seq, c.Method, c.MaxAtt, c.CB, c.Body, c.ViaClient, c.Warm, c.Timeout > 0)
 }
@@ -881,33 +952,38 @@ func TestC19(t *testing.T) {
 		return enumCase(fams[k], i-offs[k], newMix(r.Seed(), i))
 	}
 	dl := deadlineCases(r.Thorough())
-	total := nEnum + len(dl)
+	ru := reuseCases(r.Thorough())
+	total := nEnum + len(dl) + len(ru)
 
-	r.Rule(fmt.Sprintf("family A (exhaustive): every fault sequence of length %d over {ok, dial error, write error before the head is complete, write error after the complete head, EOF before any response byte, read timeout, oversized response body} (attempts beyond the sequence succeed) x 7 methods x MaxIdemponentCallAttempts x 10 callback configurations x {no body, byte body, body stream} (%s); per case pseudo-random flavours (HostClient or Client, cold or pooled first connection, cut position of the early write error, chunked or sized stream, far-away request timeout via DoTimeout/DoDeadline). family B: a stall that ends after the request deadline at attempt 1-3 x 3 stall kinds x 11 method/callback pairs x {DoTimeout,DoDeadline} x {HostClient,Client}, plus controls. distinct = (sequence, method, limit, callback, body, flavours); non-trivial = the first attempt is faulted", maxLen, exhaustiveNote))
+	r.Rule(fmt.Sprintf("family A (exhaustive): every fault sequence of length %d over {ok, dial error, write error before the head is complete, write error after the complete head, EOF before any response byte, read timeout, oversized response body} (attempts beyond the sequence succeed) x 7 methods x MaxIdemponentCallAttempts x 10 callback configurations x {no body, byte body, body stream} (%s); per case pseudo-random flavours (HostClient or Client, cold or pooled first connection, cut position of the early write error, chunked or sized stream, far-away request timeout via DoTimeout/DoDeadline). family B: a stall that ends after the request deadline at attempt 1-3 x 3 stall kinds x 11 method/callback pairs x {DoTimeout,DoDeadline} x {HostClient,Client}, plus controls. family C: 2-3 consecutive plain Do calls on ONE *Request whose timeout was set once with req.SetTimeout (DoTimeout/DoDeadline would re-assign it): the first call leaves Do through success, a non-retriable error, the attempt limit or - 9 of 13 shapes - the check 'deadline passed before the next attempt could start' (fast faults, then a stall past the deadline with a retry allowed); every later call is stalled past its own deadline and judged like family B; x 6 method/callback pairs x {HostClient,Client}. distinct = (sequence, method, limit, callback, body, flavours); non-trivial = the first attempt is faulted", maxLen, exhaustiveNote))
 	r.Assume("a transmission is counted when the peer of the fake connection has received the complete request head (own bufio parser); each dial and each first write on a pooled connection is an attempt start")
 	r.Assume("a retry of a GET/HEAD/PUT after a callback said 'no' is outside the property statement: counted as event retry_despite_callback_no, not judged")
 	r.Assume("deadline family: the stall ends at (start of first attempt + timeout + margin) on the monotonic clock; the first attempt starts after Do computed its deadline, so the end of the stall is after the deadline regardless of load; cases where a callback asked for a reset are not judged (skipped_deadline_reset)")
+	r.Assume("family C: the request is not touched between the calls; each call is judged against the timeout given to req.SetTimeout, counted from the start of that call's first attempt (which is after that Do computed its deadline)")
 	r.Assume("HEAD + oversized response: the body is never read, so it is a success and not judged as ErrBodyTooLarge")
 	r.Set("exhaustive_fault_sequences_len", maxLen)
 	r.Set("exhaustive_scope", exhaustiveNote)
 	r.Set("fault_kinds", int(nEnumKinds))
 	r.Set("enumerated_cases", nEnum)
 	r.Set("deadline_cases", len(dl))
+	r.Set("reused_request_cases", len(ru))
 
 	var diffMu sync.Mutex
 	var diffs []map[string]any
 
 	var hung atomic.Int32
-	handle := func(i int, cfg caseCfg, ev func(string, int)) {
+	var handleOn func(i int, cfg caseCfg, ev func(string, int), sh *reused, call int) obs
+	handle := func(i int, cfg caseCfg, ev func(string, int)) { handleOn(i, cfg, ev, nil, 0) }
+	handleOn = func(i int, cfg caseCfg, ev func(string, int), sh *reused, call int) (o obs) {
 		if hung.Load() > 8 {
 			ev("skipped_after_repeated_hangs", 1)
-			return
+			return obs{Hung: true}
 		}
-		o := runCase(cfg)
+		o = runCaseOn(cfg, sh)
 		if o.Hung {
 			hung.Add(1)
 			r.Inconclusive(fmt.Sprintf("case %d: watchdog fired (%v)", i, cfg.describe()))
-			return
+			return o
 		}
 		nontrivial := len(cfg.Seq) > 0 && cfg.Seq[0] != kOK
 		r.Case(classOf(cfg), nontrivial)
@@ -976,9 +1052,16 @@ func TestC19(t *testing.T) {
 			r.Sample(map[string]any{"case": i, "cfg": cfg.describe(), "observed": o})
 		}
 		for _, v := range judge(cfg, o) {
-			r.Violation(i, v.key, v.what+fmt.Sprintf(" [faults=%v method=%s max=%d cb=%s body=%s]", cfg.Seq, cfg.Method, cfg.MaxAtt, cbNames[cfg.CB], bodyNames[cfg.Body]),
-				map[string]any{"cfg": cfg.describe(), "observed": o})
+			key, what := v.key, v.what
+			if call > 0 && key == "attempt-started-after-deadline" {
+				// its own root cause: state left in the request by an earlier call
+				key = "attempt-started-after-deadline-on-reused-request"
+				what = fmt.Sprintf("call #%d on a re-used *Request (timeout set once with req.SetTimeout, sent with plain Do): ", call+1) + what
+			}
+			r.Violation(i, key, what+fmt.Sprintf(" [faults=%v method=%s max=%d cb=%s body=%s]", cfg.Seq, cfg.Method, cfg.MaxAtt, cbNames[cfg.CB], bodyNames[cfg.Body]),
+				map[string]any{"cfg": cfg.describe(), "observed": o, "call": call + 1})
 		}
+		return o
 	}
 
 	// family A on all cores
@@ -1007,6 +1090,34 @@ func TestC19(t *testing.T) {
 		}
 		handle(i, dl[k], r.Event)
 	})
+	// family C: consecutive calls on one request
+	mon.Parallel(len(ru), 64, func(k int) {
+		i := nEnum + len(dl) + k
+		if !r.Want(i) {
+			return
+		}
+		sh := &reused{req: fasthttp.AcquireRequest(), resp: fasthttp.AcquireResponse()}
+		for call, cfg := range ru[k] {
+			o := handleOn(i, cfg, r.Event, sh, call)
+			if o.Hung {
+				return // the abandoned goroutine may still hold the request: leave it to the GC
+			}
+			stalled := false
+			for _, a := range o.attempts {
+				if a.released {
+					stalled = true
+				}
+			}
+			if call == 0 && stalled && len(o.attempts) > 0 && o.attempts[len(o.attempts)-1].released && strings.Contains(o.Err, "timeout") {
+				r.Event("reused_request_first_call_left_through_deadline_check", 1)
+			}
+			if call > 0 && stalled && !o.ResetAsked {
+				r.Event("reused_request_later_calls_judged", 1)
+			}
+		}
+		fasthttp.ReleaseRequest(sh.req)
+		fasthttp.ReleaseResponse(sh.resp)
+	})
 	diffMu.Lock()
 	r.Set("model_differences_sample", diffs)
 	diffMu.Unlock()
@@ -1017,5 +1128,7 @@ func TestC19(t *testing.T) {
 		r.Require("deadline_cases_judged", len(dl)/3)
 		r.Require("oversized_responses", total/100)
 		r.Require("control_stall_was_retried", 1)
+		r.Require("reused_request_first_call_left_through_deadline_check", len(ru)/3)
+		r.Require("reused_request_later_calls_judged", len(ru)/2)
 	}
 }
